@@ -355,10 +355,16 @@ func init() {
 			Rule: "option on, SCALE: add paths whose indices lie around 255|256|300 on an empty document and on a 260-element array, followed by probes of the padded positions; same oracle"}
 		// three steps: an ensure-add ; a copy over (part of) the path just created ; another ensure-add under the same parent
 		m1 := &AlphaCfg{EnsureLen: 2, Values: []*rj.Value{patchValues[0]}}
+		m3 := &AlphaCfg{EnsureLen: 3, Values: []*rj.Value{patchValues[0]}}
+		// ... and on documents that already are three levels deep: copy or test (an ancestor gets encoded mid-patch),
+		// then an add of up to 3 tokens (two levels below it)
+		mini2 := &seqProp{ID: "C14", Docs: []string{`{"a":{"b":{"a":1}},"b":[{"a":{}}]}`, `{"a":{"a":{"a":{}}}}`}, Opts: opts[:1], Depth: 2,
+			Alpha: []*AlphaCfg{{Kinds: kinds("copy", "test"), MaxFroms: 6, Values: v1n}, m3}, Judge: judgeC14,
+			Rule: "option on: copy or test first (an ancestor object gets encoded mid-patch), then every add path of <= 3 tokens, on two documents that are three levels deep; same oracle"}
 		mini := &seqProp{ID: "C14", Docs: []string{`{"tpl":{"keep":true},"z":{},"a":[]}`}, Opts: opts[:1], Depth: 3,
 			Alpha: []*AlphaCfg{m1, {Kinds: kinds("copy", "test"), MaxFroms: 4, Values: v1n}, m1}, Judge: judgeC14,
 			Rule: "option on, DEPTH 3: add path of <= 2 tokens ; copy or test ; add path of <= 2 tokens (the second add must not rely on anything remembered from the first)"}
-		return []*seqProp{p, rev, big, mini, odd}
+		return []*seqProp{p, rev, big, mini, mini2, odd}
 	}, 240*time.Second, 25*time.Minute)
 
 	// C15 — well-formed outputs, escaping, indentation (Apply part)
